@@ -5,6 +5,7 @@ package pdf
 import (
 	"bytes"
 	"fmt"
+	"reflect"
 )
 
 // Hooks for the verification harness of property C04 (/verif).  They add no
@@ -48,7 +49,9 @@ func verifXRefProject(xref map[uint32]*xRefEntry) map[uint32]VerifXRefEntry {
 // VerifReadXRefTable runs readXRefTable on data (which starts at the keyword
 // "xref" and includes the trailer dictionary), with the object numbers in
 // known already present in the table.  allowRepair is the flag readXRef passes
-// (true when the section has no /Prev).
+// (true when the section has no /Prev).  The call goes through reflect so that
+// the hook also builds against a readXRefTable without that parameter (the
+// harness is run on trees from before fix F22).
 func VerifReadXRefTable(data []byte, known []uint32, allowRepair bool) (res map[uint32]VerifXRefEntry, trailer Dict, err error) {
 	defer func() {
 		if r := recover(); r != nil {
@@ -57,7 +60,14 @@ func VerifReadXRefTable(data []byte, known []uint32, allowRepair bool) (res map[
 	}()
 	xref := verifXRefSeed(known)
 	s := newScanner(bytes.NewReader(data), nil, nil)
-	trailer, err = readXRefTable(xref, s, allowRepair)
+	f := reflect.ValueOf(readXRefTable)
+	args := []reflect.Value{reflect.ValueOf(xref), reflect.ValueOf(s)}
+	if f.Type().NumIn() == 3 {
+		args = append(args, reflect.ValueOf(allowRepair))
+	}
+	out := f.Call(args)
+	trailer, _ = out[0].Interface().(Dict)
+	err, _ = out[1].Interface().(error)
 	return verifXRefProject(xref), trailer, err
 }
 
